@@ -128,12 +128,26 @@ func (t *Taint) scan(fn *ssa.Function, cg *CallGraph) {
 					t.mark(x)
 				}
 			}
-			// arguments flowing into module callees
+			// arguments flowing into module callees (static, or the closures a function value can denote)
 			cc := x.Common()
 			if !cc.IsInvoke() {
-				if callee := cc.StaticCallee(); callee != nil && callee.Blocks != nil && ModuleFunc(callee) {
+				var callees []*ssa.Function
+				if callee := cc.StaticCallee(); callee != nil {
+					callees = []*ssa.Function{callee}
+				} else if _, isBuiltin := cc.Value.(*ssa.Builtin); !isBuiltin {
+					callees = cg.funcValueTargets(cc.Value)
+				}
+				for _, callee := range callees {
+					if callee.Blocks == nil || !ModuleFunc(callee) {
+						continue
+					}
 					for i, a := range cc.Args {
-						if t.is(a) && i < len(callee.Params) && !t.params[callee.Params[i]] {
+						tainted := t.is(a)
+						// &local where the local struct holds (parts of) a snapshot
+						if al, ok := a.(*ssa.Alloc); ok && t.cells[cellKey(al, -1)] {
+							tainted = true
+						}
+						if tainted && i < len(callee.Params) && !t.params[callee.Params[i]] {
 							t.params[callee.Params[i]] = true
 							t.changed = true
 						}
@@ -258,7 +272,38 @@ func sameValue(a, b ssa.Value) bool {
 	}
 	ca, ok1 := constInt(a)
 	cb, ok2 := constInt(b)
-	return ok1 && ok2 && ca == cb
+	if ok1 && ok2 && ca == cb {
+		return true
+	}
+	// two loads of the same captured variable / local cell in one block, with no store in between
+	ua, oka := a.(*ssa.UnOp)
+	ub, okb := b.(*ssa.UnOp)
+	if oka && okb && ua.Op == token.MUL && ub.Op == token.MUL && ua.X == ub.X && ua.Block() == ub.Block() {
+		between := false
+		on := false
+		for _, in := range ua.Block().Instrs {
+			if in == ssa.Instruction(ua) || in == ssa.Instruction(ub) {
+				if on {
+					break
+				}
+				on = true
+				continue
+			}
+			if !on {
+				continue
+			}
+			switch y := in.(type) {
+			case *ssa.Store:
+				if y.Addr == ua.X {
+					between = true
+				}
+			case *ssa.Call:
+				between = true // may write through the captured variable
+			}
+		}
+		return !between
+	}
+	return false
 }
 
 // isFreshObject: base denotes an object allocated in this function (constructor context).
